@@ -21,4 +21,4 @@ var _ = factory.ChfConfig // the contracts below mention the configuration
 //@   requires [C18 C20] factory.ChfConfig != nil && factory.ChfConfig.Configuration != nil && factory.ChfConfig.Configuration.RfDiameter != nil && factory.ChfConfig.Configuration.RfDiameter.Tls != nil
 //@   ensures ghostLiveConns == old(ghostLiveConns)
 //@   ensures assumed GhostRequests >= old(GhostRequests)
-//@   modifies global(&GhostRequests)
+//@   modifies global(&GhostRequests), field(sur, DestinationRealm), field(sur, DestinationHost)
